@@ -290,7 +290,7 @@ class USet:
                 t, g = exp_normal(c.expr, fresh)
                 T += t
                 G += g
-            elif c.is_atom() and c.expr.kind not in ('abs', 'norm1', 'norminf', 'norm2'):
+            elif c.is_atom() and c.expr.kind not in ('abs', 'norm1', 'norminf', 'norm2', 'sumsqr', 'square'):
                 raise HarnessError('relaxed_poly: unsupported atom %s' % c.expr.kind)
         return G, H, T, aux
 
@@ -304,7 +304,20 @@ class USet:
                 if a.k <= 0 or c.sense != 'le':
                     raise HarnessError('non-convex norm constraint in a set')
                 out.append((a.off.reshape(-1)[0] * (-1 / a.k), list(a.arg.reshape(-1))))
+            elif c.is_atom() and c.expr.kind in ('sumsqr', 'square'):
+                # k*sum e_i^2 + off <= 0  <=>  sum e_i^2 <= h*1 (h = -off/k)  <=>  ((h+1)/2 ; (h-1)/2, e) in SOC
+                a = c.expr
+                if a.k <= 0 or c.sense != 'le':
+                    raise HarnessError('non-convex square constraint in a set')
+                args, offs = list(a.arg.reshape(-1)), list(a.off.reshape(-1))
+                groups = [(offs[0], args)] if a.kind == 'sumsqr' else [(o, [e]) for e, o in zip(args, offs)]
+                for o, es in groups:
+                    h = o * (-1 / a.k)
+                    out.append(((h + 1) * Fraction(1, 2), [(h - 1) * Fraction(1, 2)] + es))
         return out
+
+    def n_cones(self):
+        return sum(1 for c in self.cons if c.is_atom() and c.expr.kind in ('norm2', 'sumsqr', 'square', 'quad'))
 
     def relaxed(self, env):
         """(constraints, triples) as z3 terms: every membership (x, y, z) in K_exp is replaced by its linear
